@@ -12,6 +12,8 @@
 package main
 
 import (
+	"fmt"
+	"math/big"
 	"math/rand"
 	"os"
 	"path/filepath"
@@ -257,6 +259,32 @@ func runWorld(r *lib.Run, e *env, w *world, plan worldPlan, mutPer int, sampleMu
 		w.note("directed:"+d.class+"/"+d.variant, 1)
 		v := e.submit(w, val, d.class, d.variant, false, key, content)
 		sample(d.class, &d.key, key, content, v)
+	}
+	// Header availability over time: the same validator instance meets content that names a block whose
+	// header cannot be fetched yet, the same content again, and once more after the header (with another
+	// state root) has become available. Whatever the validator kept from earlier lookups, a proof rooted
+	// in block A's state must never be accepted for content that names block B.
+	seqDone := 0
+	for _, h := range w.honest {
+		if seqDone >= 3 || !isNodeType(h.typ) {
+			continue
+		}
+		seqDone++
+		hdrB := &types.Header{Number: big.NewInt(int64(1000 + rng.Intn(1000000))), Difficulty: big.NewInt(0), Extra: []byte(fmt.Sprintf("late header %d/%d", w.idx, seqDone))}
+		rng.Read(hdrB.Root[:])
+		B := [32]byte(hdrB.Hash())
+		key := encKey(h.key)
+		e.submit(w, val, "honest", "", true, key, encContent(h.typ, h.content))
+		c := h.content
+		c.blockHash = B
+		named := encContent(h.typ, c)
+		e.submit(w, val, "block-hash-unknown", "header-not-available-yet", false, key, named)
+		e.submit(w, val, "block-hash-unknown", "same-content-again", false, key, named)
+		w.orc.headers[B] = hdrB
+		e.submit(w, val, "block-hash-other-root", "header-became-available", false, key, named)
+		e.submit(w, val, "honest", "", true, key, encContent(h.typ, h.content))
+		delete(w.orc.headers, B)
+		w.note("header_availability_sequences", 1)
 	}
 	r.Eval(w.notes["cases"])
 	delete(w.notes, "cases")
